@@ -5,7 +5,7 @@
    arbitrary functions of (item, index, ctx) unless a theorem says "pure"), every dataset length, every index. *)
 From Coq Require Import ZArith List Bool String.
 Import ListNotations.
-From KD Require Import C01.Model C01.Spec C01.Check C01.Proofs C01.PlanEq.
+From KD Require Import C01.Model C01.Spec C01.Check C01.Proofs C01.PlanEq C01.Bounds.
 
 (* ---------------------------------------------------------------------------------------------------------- *)
 (* the constructor: which loader calls are planned and which positions they fill                              *)
@@ -37,9 +37,10 @@ Print Assumptions fuse_group_loaded.
 Theorem getitem_matches_plan : forall value vint proj (st : stack value) items rc m,
   groups_ok (s_fused_ops value st) -> init_items value st items rc = inl m ->
   plan_ok (s_fused_ops value st) items (eff_plan items (m_plan m)) /\
-  forall idx, getitem_int value vint proj st m idx =
+  forall idx, (- s_len value st <= idx)%Z ->
+              getitem_int value vint proj st m idx =
               sample_with_plan value vint proj st items (eff_plan items (m_plan m)) rc (norm_idx value st idx).
-Proof. exact getitem_int_spec. Qed.
+Proof. exact getitem_matches_plan_b. Qed.
 Print Assumptions getitem_matches_plan.
 
 (* The constructor's plan IS the plan by occurrence counting of Spec.v: the k-th complete set of a declared group is
@@ -54,8 +55,9 @@ Print Assumptions fuse_is_spec_plan.
    correspondence check evaluates against the implementation's output) *)
 Theorem getitem_is_spec_sample : forall value vint proj (st : stack value) items rc m,
   groups_ok (s_fused_ops value st) -> init_items value st items rc = inl m ->
-  forall idx, getitem_int value vint proj st m idx = spec_sample value vint proj st items rc (norm_idx value st idx).
-Proof. exact getitem_is_spec_sample_lemma. Qed.
+  forall idx, (- s_len value st <= idx)%Z ->
+    getitem_int value vint proj st m idx = spec_sample value vint proj st items rc (norm_idx value st idx).
+Proof. exact getitem_is_spec_sample_b. Qed.
 Print Assumptions getitem_is_spec_sample.
 
 (* Position by position: a returned sample has one component per mode item and component p is delivered by a
@@ -71,7 +73,7 @@ Theorem getitem_positions : forall value vint proj (st : stack value) items rc m
   forall p, (p < List.length items)%nat ->
     delivered value vint proj st items plan (norm_idx value st idx)
               (if spec_propagate value st (map fst plan) rc then Some [] else None) p (nth p (out_list o) None).
-Proof. exact getitem_positions_lemma. Qed.
+Proof. exact getitem_positions_b. Qed.
 Print Assumptions getitem_positions.
 
 (* For loaders that are functions of (item, index) and joint loaders whose j-th component is the j-th member's own
@@ -91,10 +93,11 @@ Theorem getitem_positions_pure : forall value vint proj (st : stack value) items
         thread value vint st (firstn t (m_names m)) (norm_idx value st idx) (Some []) = Some (vs, Some d) /\
         lookup value key d = Some v /\ nth p (out_list o) None = Some v
     end.
-Proof. exact getitem_positions_pure_lemma. Qed.
+Proof. exact getitem_positions_pure_b. Qed.
 Print Assumptions getitem_positions_pure.
 
-(* bare value for one item, tuple for several, ctx appended iff requested; the only failure is a 'ctx.<key>' item *)
+(* bare value for one item, tuple for several, ctx appended iff requested; the only failures are a 'ctx.<key>' item whose
+   key is not (yet) recorded (KeyError) and an index below -len (IndexError) *)
 Theorem getitem_shape : forall value vint proj (st : stack value) items rc m idx,
   groups_ok (s_fused_ops value st) -> init_items value st items rc = inl m ->
   match getitem_int value vint proj st m idx with
@@ -103,8 +106,9 @@ Theorem getitem_shape : forall value vint proj (st : stack value) items rc m idx
                 is_bare o = Nat.eqb (List.length items) 1
   | RItemsCtx o c => rc = true /\ List.length (out_list o) = List.length items /\
                      is_bare o = Nat.eqb (List.length items) 1
+  | RIndexErr => (idx < 0 /\ s_len value st + idx < 0)%Z
   end.
-Proof. exact getitem_shape_lemma. Qed.
+Proof. exact getitem_shape_b. Qed.
 Print Assumptions getitem_shape.
 
 (* The returned ctx is a dict and every key in it was recorded by a loader call of this access for this index
@@ -115,7 +119,7 @@ Theorem ctx_fresh : forall value vint proj (st : stack value) W items rc m idx o
   getitem_int value vint proj st m idx = RItemsCtx o c ->
   exists d, c = Some d /\ forall k, In k (map fst d) ->
     exists s, In (Named s) (m_fns m) /\ In k (W s (norm_idx value st idx)).
-Proof. exact ctx_fresh_lemma. Qed.
+Proof. exact ctx_fresh_b. Qed.
 Print Assumptions ctx_fresh.
 
 (* the k-th access of a history returns what that access alone returns (no state survives a call; the harness
@@ -133,6 +137,23 @@ Theorem getitem_negative : forall value vint proj (st : stack value) m i, (- s_l
   (0 <= py_index (s_len value st) i < s_len value st)%Z.
 Proof. exact getitem_negative_lemma. Qed.
 Print Assumptions getitem_negative.
+
+(* an index below -len is an IndexError (and nothing else is: an index >= len is not checked by the ModeWrapper -- an
+   endless balanced KDConcatDataset has no len -- but handed to the loaders of the stack) *)
+Theorem getitem_below_range : forall value vint proj (st : stack value) m i, (0 <= s_len value st)%Z ->
+  (getitem_int value vint proj st m i = RIndexErr <-> (i < - s_len value st)%Z).
+Proof. exact getitem_below_range_lemma. Qed.
+Print Assumptions getitem_below_range.
+
+(* iteration and slices never run into that IndexError: every index they use is in range *)
+Theorem iter_no_indexerror : forall value vint proj (st : stack value) m, ~ In RIndexErr (iter value vint proj st m).
+Proof. exact iter_no_indexerr. Qed.
+Print Assumptions iter_no_indexerror.
+
+Theorem slice_no_indexerror : forall value vint proj (st : stack value) m a b s rs, (0 <= s_len value st)%Z ->
+  getitem value vint proj st m (ISlice a b s) = GMany rs -> ~ In RIndexErr rs.
+Proof. exact slice_no_indexerr. Qed.
+Print Assumptions slice_no_indexerror.
 
 (* range(len)[slice]: the closed formulas of the model select exactly the indices the language reference describes
    (start, start+step, ... before stop, bounds clipped relative to the end), all of them valid *)
@@ -213,6 +234,19 @@ Theorem split_join : forall items, items <> [] -> forallb no_space items = true 
 Proof. exact split_join_lemma. Qed.
 Print Assumptions split_join.
 
+(* whitespace: split(" ") yields one item more than there are spaces -- a double, leading or trailing space is an
+   EMPTY item, i.e. the loader name getitem_ ... *)
+Theorem split_one_item_per_space : forall s, List.length (split_space s) = S (count_spaces s).
+Proof. exact split_space_length. Qed.
+Print Assumptions split_one_item_per_space.
+
+(* ... and (no groups declared) the constructor rejects every mode with an item the stack cannot load *)
+Theorem mode_with_unloadable_item_rejected : forall value (st : stack value) items rc s n,
+  s_fused_ops value st = [] -> In s items -> classify s = Named n -> s_has value st n = false ->
+  init_items value st items rc = inr 3%nat.
+Proof. exact init_rejects_unloadable. Qed.
+Print Assumptions mode_with_unloadable_item_rejected.
+
 (* ---------------------------------------------------------------------------------------------------------- *)
 (* non-vacuity                                                                                                *)
 (* ---------------------------------------------------------------------------------------------------------- *)
@@ -245,6 +279,13 @@ Example nv_init : exists m, init_items value ex_stack ex_items true = inl m.
 Proof. vm_compute. eexists. reflexivity. Qed.
 Example nv_negative : (- s_len value ex_stack <= -1 < 0)%Z /\ (0 <= s_len value ex_stack)%Z.
 Proof. vm_compute. repeat split; discriminate. Qed.
+Example nv_below_range :
+  match init value ex_stack "x index" false with
+  | inl m => (getitem_int value VInt cproj ex_stack m (- s_len value ex_stack - 1),
+              getitem_int value VInt cproj ex_stack m (- s_len value ex_stack))
+  | inr _ => (RErr, RErr)
+  end = (RIndexErr, RItems (Tuple [Some (Tup [VStr "x"; VInt 0]); Some (VInt 0)])).
+Proof. vm_compute. reflexivity. Qed.
 Example nv_slice : slice_range 5 (Some (-1)%Z) None (Some (-2)%Z) = Some [4; 2; 0]%Z /\
                    slice_range 5 None None (Some 0%Z) = None.
 Proof. vm_compute. split; reflexivity. Qed.
@@ -254,6 +295,9 @@ Example nv_set_item :
   set_item ["x"; "y"]%string "y" (BTuple [VInt 1; VInt 2]) (VInt 9) = Some (BTuple [VInt 1; VInt 9]) /\
   set_item ["x"]%string "x" (BBare (VInt 1)) (VInt 9) = Some (BBare (VInt 9)) /\
   get_item_index ["x"; "y"; "x"]%string "x" = Some 0%nat.
+Proof. vm_compute. repeat split; reflexivity. Qed.
+Example nv_whitespace : split_space "x  class " = ["x"; ""; "class"; ""]%string /\ classify "" = Named "" /\
+                        split_space "" = [""]%string.
 Proof. vm_compute. repeat split; reflexivity. Qed.
 Example nv_split : split_space "x index class" = ["x"; "index"; "class"]%string /\
                    forallb no_space ["x"; "index"; "class"]%string = true.
